@@ -33,6 +33,8 @@ type cenv struct {
 	old     *State
 	results []cval
 	frame   *Frame
+	callSite bool           // evaluating a callee's contract at a call site: its parameters win over the caller's locals
+	loopHdr *ssa.BasicBlock // invariants of this loop: its own φ-nodes win when a name is reused
 	lets    map[string]Expr
 	errs    *[]string
 	depth   int
@@ -211,7 +213,22 @@ func (e *cenv) ident(name string) cval {
 	vc := e.vc
 	// inside a loop context the loop-carried value (phi) of a reassigned
 	// parameter takes precedence; old(...) drops the frame and sees the entry value
-	if e.frame != nil && !e.inOld {
+	if e.frame != nil && !e.inOld && e.loopHdr != nil {
+		for _, in := range e.loopHdr.Instrs {
+			phi, ok := in.(*ssa.Phi)
+			if !ok {
+				break
+			}
+			if phi.Comment == name {
+				if _, bound := e.frame.vals[phi]; bound {
+					return cval{t: e.frame.val(phi), typ: phi.Type(), sort: vc.sortOf(phi.Type())}
+				}
+			}
+		}
+	}
+	if _, isParam := e.vars[name]; e.callSite && isParam {
+		// fall through to e.vars
+	} else if e.frame != nil && !e.inOld {
 		if v, ok := e.frame.names[name]; ok {
 			if _, isPhi := v.(*ssa.Phi); isPhi {
 				if _, bound := e.frame.vals[v]; bound {
